@@ -521,6 +521,26 @@ def prop_fix(s):
         return rep
     return None
 
+def prop_name(name):
+    """"an English language name identifies the language": get_language_for_name on the real code against the reference reading
+    of data/languages (whole name; `;` alternatives; `B, A` as `A B`; all recognisable `,` parts naming one language)"""
+    ling = L()
+    rep = {'input': _short(name), 'input_hex': hexs(name) if len(name) < 400 else None,
+           'replay': f'from lib import ling; print(ling.get_language_for_name({name!r}))'}
+    want = upper_enc(ref_name(name))
+    try:
+        l = ling.get_language_for_name(name)
+        got = (l.language_code, l.territory_code, l.encoding, l.modifier)
+    except LookupError:
+        got = None
+    except Exception as exc:
+        rep.update(kind='name-crash', observed=f'{type(exc).__name__}: {exc}'[:200], expected='a Language or LookupError', key='name-crash:' + name[:60])
+        return rep
+    if got != want:
+        rep.update(kind='language-name', observed=repr(got), expected=repr(want) + ' (None = LookupError)', key='language-name:' + name[:60])
+        return rep
+    return None
+
 def reachable(case):
     """can `Checker.check()` hand this path to check_language without the hidden --file-type option?"""
     path = case[2]
